@@ -262,6 +262,12 @@ def gen_c01_spec(rng: random.Random, maxn: int = 40) -> Dict[str, Any]:
             m["labels"] = rng.choice([{"sig": b"hello world!", "n": 3}, {"blob": b"\xfb\xff\xfe"}, {"f": 1.5, "flag": True, "raw": b"ab?"}])
         if kind == "valid" and "labels" not in m and rng.random() < 0.08:
             m["raw_labels"] = "native"  # a hand-built message whose typed labels carry native JSON values
+        if kind == "valid" and m["task"] == "t_async" and rng.random() < 0.06:
+            m["task"] = "t_annot"
+            m["kwargs"] = {"w": rng.choice([2.5, 3, "1.5"])}
+        elif kind == "valid" and m["task"] == "t_async" and rng.random() < 0.06:
+            m["timeout"] = rng.choice([10, 30])  # a (generous) timeout label, sent as text
+            m["timeout_str"] = True
         if kind == "valid" and "kwargs" not in m and rng.random() < 0.1:
             m["api_kwargs"] = True
         if kind == "valid" and rng.random() < 0.12:
@@ -490,7 +496,7 @@ def gen_c02_spec(rng: random.Random) -> Dict[str, Any]:
     msgs = []
     fail = []
     for i in range(n):
-        task = rng.choice(["t_async", "t_async", "t_sync"])
+        task = rng.choice(["t_async", "t_async", "t_sync", "t_async", "t_async", "t_sync", "t_asyncified"])
         beh = gen_beh(rng, ["ok", "ok", "raise", "noresult"], allow_genexit=True)
         m: Dict[str, Any] = {"at": ats[i], "task": task, "ackable": rng.random() < 0.9,
                              "ack_kind": rng.choice(["sync", "async", "async", "awaitable", "task"]),
@@ -549,6 +555,8 @@ def gen_c02_spec(rng: random.Random) -> Dict[str, Any]:
         "msgs": msgs, "end_stream": True,
         "backend": {"lat": rng.choice([0, 0, "y", 0.01, 0.1]), "fail": fail},
     }
+    if rng.random() < 0.25:
+        spec["ack_subclass"] = True  # every other delivery is an instance of the broker's own AckableMessage subclass
     if fail and rng.random() < 0.5:
         spec["backend"]["fail_exc"] = rng.choice(["TimeoutError", "socket.timeout", "ConnectionError", "KeyError", "asyncio.TimeoutError"])
     r_b = rng.random()
